@@ -7,11 +7,14 @@ with PYTHONPATH=<worktree with the change> and VERIF_OUT=<scratch> (so /repo and
 import json, os, shutil, subprocess, sys, tempfile
 SRC = sys.argv[1]
 ONLY = set(sys.argv[2:])
+PREFIX = os.environ.get('SEED_PREFIX', '')        # e.g. r2 for the second round: seeded/C01_r2m1
 ALSO = {  # other checks worth trying per mutant (besides its own property)
     'C01/m2': ['C09'], 'C03/m2': ['C09'], 'C05/m2': ['C04'], 'C13/m2': ['C10'], 'C17/m2': ['C10'], 'C10/m2': ['C17'], 'C11/m1': ['C10'], 'C10/m1': ['C11'],
     'C19/m2': ['C09'], 'C09/m2': ['C01'], 'C02/m1': ['C01'], 'C01/m1': ['C02'], 'C15/m2': ['C03', 'C17'], 'C03/m1': ['C17'], 'C16/m1': ['C03'],
     'C18/m2': ['C09'], 'C07/m1': ['C10'], 'C12/m2': ['C18'],
 }
+if PREFIX == 'r2':
+    ALSO = {'C02/m2': ['C09'], 'C14/m2': ['C15'], 'C15/m1': ['C11'], 'C11/m1': ['C15'], 'C10/m2': ['C15'], 'C17/m1': ['C10'], 'C13/m2': ['C09']}
 
 
 def sh(cmd, **kw):
@@ -25,10 +28,10 @@ def main():
             continue
         src = os.path.join(SRC, it)
         pid, mn = it.split('/')
-        dst = f'/verif/seeded/{pid}_{mn}'
+        dst = f'/verif/seeded/{pid}_{PREFIX}{mn}'
         wt = tempfile.mkdtemp(prefix='wt_seed_', dir='/tmp'); os.rmdir(wt)
         sh(f'/verif/tools/mkworktree.sh {wt}')
-        meta = {'property': pid, 'source': 'independent sub-agent given only the property text and a scratch worktree', 'head': sh('git -C /repo rev-parse --short HEAD').stdout.strip()}
+        meta = {'property': pid, 'round': PREFIX or 'r1', 'source': 'independent sub-agent given only the property text and a scratch worktree', 'head': sh('git -C /repo rev-parse --short HEAD').stdout.strip()}
         try:
             patch = os.path.join(src, 'patch_rebased.diff') if os.path.exists(os.path.join(src, 'patch_rebased.diff')) else os.path.join(src, 'patch.diff')
             r = sh(f'git -C {wt} apply {patch}')
